@@ -75,6 +75,16 @@ def core_corpus(rng):
     specs.append({"kind": "enum", "derived": full, "entry": "attr", "generic": False, "variants": [
         {"style": "unit", "fields": []}, {"style": "tuple", "fields": [dict(plain)]},
         {"style": "named", "fields": [dict(plain), dict(plain)]}, {"style": "unit", "fields": []}]})
+    # twelve fields: the lexicographic order follows the declaration order, not the text order of names / indices (f10 < f2)
+    for style in ("tuple", "named"):
+        for kind in ("struct", "enum"):
+            fs = []
+            for i in range(12):
+                f = dict(plain)
+                f["dom"] = [f"{G.V}({i % 6})"] if i not in (2, 10) else [f"{G.V}(0)", f"{G.V}(3)"]
+                fs.append(f)
+            vs = [{"style": style, "fields": fs}] + ([{"style": "unit", "fields": []}] if kind == "enum" else [])
+            specs.append({"kind": kind, "variants": vs, "derived": full, "entry": "attr" if style == "tuple" else "derive", "generic": False})
     return specs
 
 
@@ -210,7 +220,7 @@ def run(rep, tier, rng):
             finally:
                 M.reversed_for = orig
             break
-    rep.rule = ("generated structs/enums (0-4 fields per variant, 1-4 variants, field types V, P (NaN-like), Vec<V>, (V,V), T, "
+    rep.rule = ("generated structs/enums (0-4 fields per variant, 1-4 variants, field types V, P (NaN-like), Vec<V>, (V,V), Sh (inherent eq/cmp/.. methods that differ from its trait impls), T, "
                 "Option<T>) with accepted placements of ord/partial_ord/eq/partial_eq ignore/reverse/key/by (distinct key/by "
                 "function per attribute), all 15 subsets of {Ord,PartialOrd,Eq,PartialEq}, both entry points; for all ordered "
                 "pairs of the full cartesian value set the logged ==/partial_cmp/cmp result is compared with the documented "
